@@ -203,6 +203,61 @@ def r12_2(prog, out):
                               ["wait at %s" % bi.loc(a.poll_bb), "pop body %s returns Err when deleted: %s" % (prog.short(pop_body or "?"), pop_err)])
 
 
+def unbounded_wait(prog, bi, a):
+    """does awaiting `a` park the task on a signal that nothing is obliged to raise (a Notify, directly or inside a local
+    coroutine)?  Actor round trips (send + reply), sleeps, yields to the client and joins are bounded or end with the peer."""
+    cls = await_class(prog, bi, a)
+    if cls in ("notified", "messages_available"):
+        return cls
+    if cls == "local":
+        cid = prog.body_of_type(bi.body, a.fut_ty)
+        for c in prog.cone(cid, follow=("call", "closure", "poll")) if cid else []:
+            ci = prog.info(c)
+            if ci is None:
+                continue
+            for x in ci.awaits:
+                if await_class(prog, ci, x) in ("notified", "messages_available"):
+                    return "%s in %s" % (await_class(prog, ci, x), prog.short(c))
+    return None
+
+
+@rule("C12", "R12.6", "a consumer loop parks only on waits that are raced against the deletion signal", floor=1)
+def r12_6(prog, out):
+    """R12.2 judges the wait on the message signal.  Any *other* place where a pull / streaming-pull loop can park on a
+    Notify-like signal (a flow-control gate, a rate limiter) must be released by DeleteSubscription as well: it is raced
+    against the deletion signal in a select whose deleted branch ends the consumer with an error."""
+    loops = find_consumer_loops(prog)
+    if not loops:
+        raise CheckBroken("no consumer loop found")
+    n = 0
+    for cl in loops:
+        bi = prog.info(cl.body)
+        known = {id(x) for x in cl.waits} | {id(x) for x in cl.pulls}
+        for a in bi.awaits:
+            if a.poll_bb not in cl.blocks or id(a) in known:
+                continue
+            why = None
+            if a.select is not None:
+                for br in a.select.branches:
+                    cid = prog.body_of_type(bi.body, br.fut_ty) if (br.fut_ty or "").startswith("{coroutine:") else None
+                    if (br.fut_ty or "").startswith("tokio::sync::futures::Notified"):
+                        why = "notified"
+                if why is None:
+                    continue
+                ok, reason = deleted_branch_safe(prog, bi, cl, a)
+                if ok:
+                    continue
+            else:
+                why = unbounded_wait(prog, bi, a)
+                if why is None:
+                    continue
+            n += 1
+            out.violation("consumer:%s:parks:%s" % (cl.label, why.split(" in ")[-1]), bi.loc(a.poll_bb),
+                          "the consumer loop can park here on a signal (%s) that DeleteSubscription does not raise and that is not raced against the deletion "
+                          "signal: a consumer blocked here is never told that its subscription is gone" % why)
+        out.holds("consumer:%s:other-waits" % cl.label, prog.loc(cl.body), "no other unbounded wait in the loop", nontrivial=False)
+
+
 def w_origin_bb(bi, a):
     """block where the awaited signal future was created"""
     if a.select is not None:
@@ -362,3 +417,35 @@ def r12_5(prog, out):
                 else:
                     out.violation(key, bi.loc(blk.idx), "an Err(status) in hand is turned into a normal answer: the client gets OK (e.g. an empty response) where the "
                                   "operation reported an error such as NOT_FOUND for a deleted subscription", ["bb%d (%s)" % (x, bi.loc(x)) for x in esc][:8])
+
+
+@rule("C12", "R12.7", "DeleteSubscription always reaches the subscription actor: the handle never answers Ok without sending the delete request", floor=1)
+@rule("C11", "R12.7", "DeleteSubscription always reaches the subscription actor: the handle never answers Ok without sending the delete request", floor=1)
+def r12_7(prog, out):
+    """Consumers are released (and the name freed) by the actor's delete handler.  A delete flow that can answer Ok on some
+    path without sending that request (`nothing to detach, so nothing to do`) leaves the subscription registered and its
+    consumers parked.  R10.7 instances of the request variant(s) whose handler raises the actor's `deleted` flag."""
+    from engine import Out
+    from props.c10 import r10_7
+    from actorlib import roles
+    R = roles(prog)
+    A = prog.anchors
+    flag = A.cell("SubscriptionActor", "deleted", optional=True)
+    if flag is None:
+        raise CheckBroken("SubscriptionActor has no deleted flag")
+    dvars = set()
+    for vname in R.sub_actor.variants:
+        for tid in R.variant_targets(R.sub_actor, vname):
+            if any(e.kind == "write" and e.cells and e.cells[-1] == flag for e in prog.effects(tid)):
+                dvars.add(vname)
+    if not dvars:
+        raise CheckBroken("no subscription request raises the deleted flag")
+    tmp = Out(out.rid)
+    r10_7(prog, tmp)
+    n = 0
+    for it in tmp.items:
+        if any(("%s::%s:" % (short_ty(R.sub_actor.request), v)) in it.key for v in dvars):
+            out.items.append(it)
+            n += 1
+    if n == 0:
+        raise CheckBroken("the delete request is never built")
